@@ -544,4 +544,19 @@ theorem value_of_cinv {isMax : Bool} (hg : cmpFirstGuard = true) {s : State} {r 
           rw [he] at this; exact this
         rw [better_antisymm h1 h2]
 
+theorem num_pos (isMax : Bool) : 0 < (cfg isMax).num := by cases isMax <;> decide
+
+
+theorem ref_fold (isMax : Bool) (es : List CEv) : ∀ (s s' : State) (r r' : Ref),
+    run isMax s r es = some (s', r') → r' = es.foldl (refStep isMax) r := by
+  induction es with
+  | nil => intro s s' r r' h; cases h; rfl
+  | cons e es ih =>
+    intro s s' r r' h
+    simp only [run] at h
+    cases h1 : step isMax s e with
+    | none => rw [h1] at h; cases h
+    | some s1 => rw [h1] at h; exact ih _ _ _ _ h
+
+
 end Babylon.Counter.Cmp
